@@ -42,6 +42,11 @@ class Infeasible(Exception):
     """the current path condition is unsatisfiable; the path is dropped"""
 
 
+class Aborted(Infeasible):
+    """execution cannot continue past a point whose unreachability has just been recorded as an obligation (a definite
+    failure such as a missing key or a division by a literal zero): the path ends here but its obligations are kept"""
+
+
 # ------------------------------------------------------------------------------------------------ auxiliary values
 class ClassV:
     def __init__(self, name, module):
@@ -580,6 +585,8 @@ class Interp:
             return v
         if isinstance(v, Opaque):
             raise Unsupported("truthiness of opaque value %s" % v.what)
+        if isinstance(v, LArr) and concrete_int(v.n) == 1:
+            return self.truth(v.get(0))  # numpy: the truth value of a one-element array is that of its element
         raise Unsupported("truthiness of %r" % (v,))
 
     # ------------------------------------------------------------------------------------------ sequences
@@ -775,7 +782,7 @@ class Interp:
             if self.branch(to_real(z) < 0):
                 return -inf
             self.oblige("defined", "inf-times-zero@L%s" % getattr(node, "lineno", "?"), False, getattr(node, "lineno", None), note="inf*0 or inf/0 is NaN")
-            raise Infeasible()
+            raise Aborted()
         if isinstance(op, ast.Div) and self._is_inf(b):
             return 0.0
         raise Unsupported("operator %s with an infinite operand" % type(op).__name__)
@@ -788,7 +795,7 @@ class Interp:
                 return self._py_binop(op, a, b)
             except ZeroDivisionError:
                 self.oblige("defined", "div-by-zero@L%s" % getattr(node, "lineno", "?"), False, getattr(node, "lineno", None))
-                raise Infeasible()
+                raise Aborted()
         if isinstance(a, (Opaque,)) or isinstance(b, (Opaque,)):
             return Opaque("arith")
         if isinstance(a, str) or isinstance(b, str):
@@ -857,6 +864,11 @@ class Interp:
         if isinstance(a, str) and isinstance(op, (ast.Add, ast.Mod, ast.Mult)):
             if is_concrete(b):
                 return self._py_binop(op, a, b)
+            if isinstance(op, ast.Mod):
+                # "template" % symbolic values: represented by the template itself -- only the emptiness of such strings is
+                # meaningful (error messages); their text is never compared by the code under contract
+                self.assumptions_log.add("strings formatted from symbolic values are represented by their templates (only their emptiness is used)")
+                return a
             return Opaque("string")
         if isinstance(a, (set, frozenset)) and isinstance(b, (set, frozenset)):
             return self._py_binop(op, a, b)
@@ -895,6 +907,23 @@ class Interp:
 
             return get
         raise Unsupported("2-D reader of %r" % (a,))
+
+    def table2(self, rows):
+        """2-D local array of concrete shape from a list of rows of terms"""
+        nr = len(rows)
+        nc = len(rows[0]) if rows else 0
+        readers = [self._list_reader(list(r)) for r in rows]
+
+        def get(i, j):
+            ci = concrete_int(i)
+            if ci is not None:
+                return readers[ci](j)
+            res = readers[-1](j)
+            for r in range(nr - 2, -1, -1):
+                res = ite(to_z3num(i) == r, readers[r](j), res)
+            return res
+
+        return LArr2(nr, nc, get)
 
     def binop2(self, op, a, b, node=None):
         if isinstance(a, np.ndarray) and isinstance(b, np.ndarray) and a.dtype != object and b.dtype != object:
@@ -982,6 +1011,19 @@ class Interp:
             if isinstance(op, ast.GtE):
                 return core.subset_of(b.term, a.term)
             raise Unsupported("comparison %s on abstract sets" % type(op).__name__)
+        if (isinstance(a, LArr2) or isinstance(b, LArr2)) and not isinstance(op, (ast.In, ast.NotIn, ast.Is, ast.IsNot)):
+            # element-wise comparison of a 2-D local array of concrete shape with a scalar (or an array of the same shape)
+            t = a if isinstance(a, LArr2) else b
+            nr, nc = concrete_int(t.nr), concrete_int(t.nc)
+            if nr is None or nc is None:
+                raise Unsupported("comparison of a 2-D array of symbolic shape")
+            ga = a.get if isinstance(a, LArr2) else (lambda i, j: a)
+            gb = b.get if isinstance(b, LArr2) else (lambda i, j: b)
+            if (isinstance(a, LArr2) and (concrete_int(a.nr), concrete_int(a.nc)) != (nr, nc)) or (isinstance(b, LArr2) and (concrete_int(b.nr), concrete_int(b.nc)) != (nr, nc)):
+                raise Unsupported("comparison of 2-D arrays of different shapes")
+            if is_arr(a) or is_arr(b) or is_arr2(a) and not isinstance(a, LArr2) or is_arr2(b) and not isinstance(b, LArr2):
+                raise Unsupported("comparison of a 2-D array with another array kind")
+            return self.table2([[self._compare(op, ga(i, j), gb(i, j), node) for j in range(nc)] for i in range(nr)])
         return self._compare(op, a, b, node)
 
     def _compare(self, op, a, b, node=None):
@@ -1126,7 +1168,7 @@ class Interp:
                 return v.fields[attr]
             fi = v.module.resolve_method(v.cls, attr)
             if fi is None:
-                if self.definedness:
+                if self.definedness and not self.caught_here("AttributeError"):
                     self.oblige("defined", "attribute-exists:%s@L%s" % (attr, getattr(node, "lineno", "?")), False, getattr(node, "lineno", None), note="AttributeError: %s has no attribute %s" % (v.cls, attr))
                 raise _Raise("AttributeError", node)
             if fi.is_property:
@@ -1171,7 +1213,7 @@ class Interp:
             return Opaque(v.what + "." + attr)
         if v is None:
             self.oblige("defined", "attr-of-None.%s@L%s" % (attr, getattr(node, "lineno", "?")), False, getattr(node, "lineno", None))
-            raise Infeasible()
+            raise Aborted()
         if hasattr(v, "__dict__") or hasattr(v, attr):
             try:
                 return getattr(v, attr)
@@ -1511,11 +1553,16 @@ class Interp:
             if impls is None:
                 raise Unsupported("object %r is not subscriptable" % v)
             return self.call_merged(v, "__getitem__", impls, [idx], {}, node)
+        if isinstance(v, PyObjV):
+            fi = v.module.resolve_method(v.cls, "__getitem__")
+            if fi is None:
+                raise Unsupported("object of class %s is not subscriptable" % v.cls)
+            return self.call_function(fi, [v, idx], {}, node)
         if isinstance(v, dict):
             if is_concrete(idx):
                 if idx not in v:
                     self.oblige("defined", "KeyError@L%s" % getattr(node, "lineno", "?"), False, getattr(node, "lineno", None))
-                    raise Infeasible()
+                    raise Aborted()
                 return v[idx]
             raise Unsupported("dict lookup with symbolic key")
         if isinstance(v, HeapArr2) or isinstance(v, LArr2) or (isinstance(v, np.ndarray) and v.ndim == 2):
@@ -1541,7 +1588,7 @@ class Interp:
             c = concrete_int(idx)
             if not (-len(v) <= c < len(v)):
                 self.oblige("defined", "IndexError@L%s" % getattr(node, "lineno", "?"), False, getattr(node, "lineno", None))
-                raise Infeasible()
+                raise Aborted()
             return v[c]
         if isinstance(v, np.ndarray) and is_concrete(idx):
             return v[idx]
@@ -1572,6 +1619,12 @@ class Interp:
         if not isinstance(idx, tuple):
             if isinstance(v, np.ndarray) and is_concrete(idx):
                 return v[idx]
+            if isinstance(v, LArr2) and not isinstance(idx, slice) and not is_arr(idx) and concrete_int(v.nc) is not None:
+                # a[i]: row i as a 1-D array
+                nr = v.nr
+                if self.definedness and concrete_int(idx) is None:
+                    self.oblige("defined", "row-in-range@L%s" % getattr(node, "lineno", "?"), z3.And(to_z3num(idx) >= 0, to_z3num(idx) < to_z3num(nr)), getattr(node, "lineno", None))
+                return LArr(v.nc, lambda c, rd=v.get, i=idx: rd(i, c))
             raise Unsupported("row indexing of 2-D array")
         i, j = idx
         if isinstance(v, np.ndarray) and is_concrete(i) and is_concrete(j):
@@ -1609,6 +1662,12 @@ class Interp:
             if impls is None:
                 raise Unsupported("object %r does not support item assignment" % v)
             fi = self._dispatch(v, "__setitem__", impls)
+            self.call_function(fi, [v, idx, val], {}, node)
+            return
+        if isinstance(v, PyObjV):
+            fi = v.module.resolve_method(v.cls, "__setitem__")
+            if fi is None:
+                raise Unsupported("object of class %s does not support item assignment" % v.cls)
             self.call_function(fi, [v, idx, val], {}, node)
             return
         if isinstance(v, dict):
@@ -2232,7 +2291,7 @@ class Interp:
                 # in place: same object, new contents; numpy keeps the shape of the target
                 if concrete_int(cur.n) is not None and concrete_int(new.n) is not None and concrete_int(cur.n) != concrete_int(new.n):
                     self.oblige("defined", "inplace-broadcast@L%s" % node.lineno, False, node.lineno)
-                    raise Infeasible()
+                    raise Aborted()
                 elif not (is_z3(to_z3num(cur.n)) and to_z3num(cur.n).eq(to_z3num(new.n))):
                     self.oblige("defined", "inplace-broadcast@L%s" % node.lineno, to_z3num(cur.n) == to_z3num(new.n), node.lineno)
                 cur.get = new.get
@@ -2276,9 +2335,17 @@ class Interp:
             return
         raise Unsupported("augmented assignment target")
 
+    def caught_here(self, exc):
+        """is an exception of class `exc` raised now caught by an enclosing try of the code under execution?"""
+        return any(any(self._handler_matches(h, exc) for h in hs) for hs in getattr(self, "_handlers", []))
+
     def s_Try(self, node, env):
+        self.__dict__.setdefault("_handlers", []).append(node.handlers)
         try:
-            self.exec_block(node.body, env)
+            try:
+                self.exec_block(node.body, env)
+            finally:
+                self._handlers.pop()
         except _Raise as r:
             for h in node.handlers:
                 if self._handler_matches(h, r.exc_class):
